@@ -276,6 +276,10 @@ class DecorateNamespaceFunction(FnSpec):
                    lst(st, st.vars["base_snapshots"].t) == BCAT["snap"](sp.bases, sp.key, c.i),
                    lst(st, st.vars["base_postconditions"].t) == BCAT["post"](sp.bases, sp.key, c.i),
                    st.vars["bases_have_func"].t == BHAVE(sp.bases, sp.key, c.i)]
+            j = z3.Int("j!sh")
+            bs = lst(sp.pre, sp.bases)
+            # none of the bases seen so far provides the member through the function's own checker (else the loop has returned)
+            out.append(z3.ForAll([j], z3.Implies(z3.And(j >= 0, j < c.i, rhas(sp.pre, bs[j], sp.key)), z3.Not(sp.shares(sp.pre, bs[j], sp.key, sp.k0)))))
             if "a_base_accepts_all" in st.vars:
                 acc, have = st.vars["a_base_accepts_all"].t, st.vars["bases_have_func"].t
                 out += [acc == BOPEN(sp.bases, sp.key, c.i), z3.Implies(acc, have),
@@ -306,6 +310,8 @@ class DecorateNamespaceFunction(FnSpec):
     def setup(self, ex, st, a):
         bind_bases(st.copy())
         self.bases, self.key = a["bases"].t, a["key"].t
+        self.pre = st.copy()
+        self.k0 = found(st, self.func_of(st, a))
         j = z3.Int("j!nf")
         bs = lst(st, self.bases)
         f = self.func_of(st, a)
@@ -316,6 +322,18 @@ class DecorateNamespaceFunction(FnSpec):
         st.assume(z3.ForAll([o], z3.Implies(o < st.ctr, z3.And([attr(st, o, LISTS[w]) < st.ctr for w in LISTS]))))
         st.assume(z3.ForAll([j], z3.Implies(z3.And(j >= 0, j < z3.Length(bs)), z3.And(
             ANC(bs[j], self.key) != bs[j], ANC(bs[j], self.key) < st.ctr, bs[j] < st.ctr, bs[j] > 2, bf(j) < st.ctr))))
+
+    @staticmethod
+    def shares(H, b, key, k0):
+        """The checker of the member is the very checker through which base b provides it (the member is b's, bound again)."""
+        kb = base_checker(H, b, key)
+        return z3.And(kb != NONE, kb == k0)
+
+    def shared(self, c):
+        j = z3.Int("j!sx")
+        bs = lst(c.pre, c.a["bases"].t)
+        key, k0 = c.a["key"].t, found(c.pre, self.func_of(c.pre, c.a))
+        return z3.Exists([j], z3.And(j >= 0, j < z3.Length(bs), rhas(c.pre, bs[j], key), self.shares(c.pre, bs[j], key, k0)))
 
     def own(self, c):
         f = self.func_of(c.pre, c.a)
@@ -363,7 +381,19 @@ class DecorateNamespaceFunction(FnSpec):
         K = z3.If(e["k0"] != NONE, e["k0"], z3.If(ISFUNCTION(val0), val1, attr(st, val1, "__func__")))
         k = z3.Int("k!nf")
         # merged lists are fresh objects (never a base's list: C17); constructors keep their own lists (nothing is merged)
-        lists_ok = z3.And([z3.And(z3.Or(e["ctor"], attr(st, K, LISTS[w]) >= pre_st.ctr), lst(st, attr(st, K, LISTS[w])) == e[w]) for w in ("pre", "snap", "post")])
+        lists_ok = z3.And([z3.And(z3.Or(e["ctor"], attr(st, K, LISTS[w]) >= pre_st.ctr), lst(st, attr(st, K, LISTS[w])) == e[w],
+                                  z3.Implies(z3.And(e["ctor"], e["k0"] != NONE), attr(st, K, LISTS[w]) == attr(pre_st, K, LISTS[w]))) for w in ("pre", "snap", "post")])
+        ctor = e["ctor"]
+        sh = z3.And(z3.Not(ctor), self.shared(c))  # (constructors are not merged with the bases at all)
+        merged = lambda f_: z3.Implies(z3.Not(sh), f_)
+        out = self._merged_clauses(c, e, ns, key, val0, val1, active, K, lists_ok, k)
+        always = ("key_set_and_order_unchanged", "other_namespace_entries_untouched")  # (hold whether or not anything is merged)
+        return [(n_, f_ if n_ in always else merged(f_)) for n_, f_ in out] + [
+            ("a_member_shared_with_a_base_is_left_alone", z3.Implies(sh, val1 == val0)),
+            ("contracts_of_every_base_are_left_as_they_were", self.bases_untouched(c))]
+
+    def _merged_clauses(self, c, e, ns, key, val0, val1, active, K, lists_ok, k):
+        pre_st, st = c.pre, c.post
         return [("accepted", z3.And(z3.Not(e["reject"]), z3.Not(self.dup(c, e)))),
                 ("key_set_and_order_unchanged", z3.And(z3.Select(dom(st, ns), key), st.get("dord", ns) == pre_st.get("dord", ns))),
                 ("other_namespace_entries_untouched", z3.ForAll([k], z3.Implies(k != key, z3.And(
@@ -376,11 +406,25 @@ class DecorateNamespaceFunction(FnSpec):
                     ISINST(val1, clsref("classmethod")) == ISINST(val0, clsref("classmethod"))))),
                 ("effective_contracts_are_bases_then_own", z3.Implies(active, lists_ok))]
 
+    def bases_untouched(self, c):
+        """C17: whatever the new class does with a member, the checker through which a base class provides it keeps its three
+        lists.  By the frame of this function (proved: besides the namespace entry and fresh objects only the three list
+        attributes of the member's own checker k0 are written, and no pre-existing list object is changed) this is: k0 is not
+        the checker of any base -- unless the member is left alone altogether."""
+        pre_st, a = c.pre, c.a
+        j = z3.Int("j!bu")
+        bs = lst(pre_st, a["bases"].t)
+        sh = z3.And(z3.Not(self.effective(c)["ctor"]), self.shared(c))
+        # (a constructor is never merged with the bases: its checker's three attributes are re-assigned the very list objects
+        # they held -- clause effective_contracts_are_bases_then_own -- so nothing changes even if the constructor is a base's)
+        return z3.Or(self.effective(c)["ctor"], sh, z3.ForAll([j], z3.Implies(z3.And(j >= 0, j < z3.Length(bs), rhas(pre_st, bs[j], a["key"].t)), z3.Not(self.shares(pre_st, bs[j], a["key"].t, found(pre_st, self.func_of(pre_st, a)))))))
+
     def ensures_raise(self, c, e_):
         e = self.effective(c)
         f = e["f"]
         from .types import SIG_RAISES
-        return [("only_documented_rejections", z3.Or(
+        sh = z3.And(z3.Not(e["ctor"]), self.shared(c))
+        return [("never_for_a_member_shared_with_a_base", z3.Not(sh)), ("only_documented_rejections", z3.Or(
             z3.And(e["reject"], builtin_exc(e_.t, "TypeError", c.pre.ctr)),
             z3.And(z3.Not(e["reject"]), self.dup(c, e), builtin_exc(e_.t, "ValueError", c.pre.ctr)),
             z3.And(z3.Not(e["reject"]), e["k0"] == NONE, z3.Or(SIG_RAISES(f), DWC.reserved(type("C", (), {"ref": lambda s, n: f, "pre": c.pre})())))))]
